@@ -375,6 +375,9 @@ func (set *Set) add(hosts ...*Host) {
 		// type, which must not be left behind in its healthy tier.
 		if old, ok := set.all[host.Addr]; ok && old != host {
 			set.removeFromHealthy(old)
+			// It leaves the set for good, a later removal of the address
+			// only reaches the new host: tell whoever waits for it now.
+			old.markRemoved()
 		}
 		set.all[host.Addr] = host
 		// Not in one batch after the loop, a later host of the same batch
